@@ -87,15 +87,23 @@ MergedTUpper(srcs) == SumSeq([k \in DOMAIN srcs |-> LivingTokens(srcs[k])])
 (* queries:  [k |-> "term", w] | [k |-> "phrase", ws] | [k |-> "bool", cl |-> <<[o, q]..>>]     *)
 (*           [k |-> "boost", b, q] | [k |-> "const", c, q] | [k |-> "dismax", tie, qs]          *)
 (* floats (b, c, tie) are opaque here: pairs of 16-bit words of their f32 bit pattern.          *)
-RECURSIVE Matches(_, _)
-Matches(q, d) ==
-  CASE q.k = "term" -> Tf(d, q.w) > 0
-    [] q.k = "phrase" -> PhraseTf(d, q.ws) > 0
-    [] q.k = "boost" -> Matches(q.q, d)
-    [] q.k = "const" -> Matches(q.q, d)
-    [] q.k = "dismax" -> \E i \in DOMAIN q.qs : Matches(q.qs[i], d)
+(* A term / phrase leaf names its field (f; "body" when absent).  The general operators are     *)
+(* over MULTI-FIELD documents - a record field |-> [toks, pad] - with per-field statistics       *)
+(*    st = [N, T |-> [f |-> tokens of field f], n |-> [f |-> [w |-> doc_freq of w in field f]]]   *)
+(* and per-field field-norm ids fn = [f |-> id]: N is per searcher; T, n(t), tf and the          *)
+(* quantised length are those of the leaf's OWN field.  The single-field operators below are     *)
+(* the instance with the one field "body".                                                       *)
+Fld(q) == IF "f" \in DOMAIN q THEN q.f ELSE "body"
+
+RECURSIVE MatchesF(_, _)
+MatchesF(q, d) ==
+  CASE q.k = "term" -> Tf(d[Fld(q)], q.w) > 0
+    [] q.k = "phrase" -> PhraseTf(d[Fld(q)], q.ws) > 0
+    [] q.k = "boost" -> MatchesF(q.q, d)
+    [] q.k = "const" -> MatchesF(q.q, d)
+    [] q.k = "dismax" -> \E i \in DOMAIN q.qs : MatchesF(q.qs[i], d)
     [] q.k = "bool" ->
-         LET m == [i \in DOMAIN q.cl |-> Matches(q.cl[i].q, d)] IN
+         LET m == [i \in DOMAIN q.cl |-> MatchesF(q.cl[i].q, d)] IN
          /\ \A i \in DOMAIN q.cl : q.cl[i].o = "must" => m[i]
          /\ \A i \in DOMAIN q.cl : q.cl[i].o = "mustnot" => ~m[i]
          /\ \/ \E i \in DOMAIN q.cl : q.cl[i].o = "must"
@@ -104,31 +112,33 @@ Matches(q, d) ==
 None == [k |-> "none"]
 IsSome(t) == t.k # "none"
 
-(* The symbolic score of document d (field-norm id fnid) for query q under statistics st;       *)
+(* The symbolic score of document d (field-norm ids fn) for query q under statistics st;        *)
 (* bs = the boosts on the path from the root, outermost first (BoostWeight hands boost*b down   *)
 (* to the leaves; a boolean hands its boost to every clause).  One matching clause: the clause  *)
 (* itself (0.0 + s = s, and max + (s - s) * tie = s exactly).                                   *)
-RECURSIVE ScoreTerm(_, _, _, _, _)
-ScoreTerm(q, d, st, bs, fnid) ==
+RECURSIVE ScoreTermF(_, _, _, _, _)
+ScoreTermF(q, d, st, bs, fn) ==
   CASE q.k = "term" ->
-         IF Tf(d, q.w) = 0 THEN None
-         ELSE [k |-> "bm25", N |-> st.N, T |-> st.T, ns |-> <<st.n[q.w]>>, tf |-> Tf(d, q.w),
-               fn |-> fnid, boosts |-> bs]
+         LET f == Fld(q) IN
+         IF Tf(d[f], q.w) = 0 THEN None
+         ELSE [k |-> "bm25", N |-> st.N, T |-> st.T[f], ns |-> <<st.n[f][q.w]>>, tf |-> Tf(d[f], q.w),
+               fn |-> fn[f], boosts |-> bs]
     [] q.k = "phrase" ->
-         IF PhraseTf(d, q.ws) = 0 THEN None
-         ELSE [k |-> "bm25", N |-> st.N, T |-> st.T, ns |-> [i \in DOMAIN q.ws |-> st.n[q.ws[i]]],
-               tf |-> PhraseTf(d, q.ws), fn |-> fnid, boosts |-> bs]
-    [] q.k = "boost" -> ScoreTerm(q.q, d, st, Append(bs, q.b), fnid)
+         LET f == Fld(q) IN
+         IF PhraseTf(d[f], q.ws) = 0 THEN None
+         ELSE [k |-> "bm25", N |-> st.N, T |-> st.T[f], ns |-> [i \in DOMAIN q.ws |-> st.n[f][q.ws[i]]],
+               tf |-> PhraseTf(d[f], q.ws), fn |-> fn[f], boosts |-> bs]
+    [] q.k = "boost" -> ScoreTermF(q.q, d, st, Append(bs, q.b), fn)
     [] q.k = "const" ->
-         IF Matches(q.q, d) THEN [k |-> "const", c |-> q.c, boosts |-> bs] ELSE None
+         IF MatchesF(q.q, d) THEN [k |-> "const", c |-> q.c, boosts |-> bs] ELSE None
     [] q.k = "dismax" ->
-         LET sub == [i \in DOMAIN q.qs |-> ScoreTerm(q.qs[i], d, st, bs, fnid)]
+         LET sub == [i \in DOMAIN q.qs |-> ScoreTermF(q.qs[i], d, st, bs, fn)]
              args == SelectSeq(sub, IsSome)
          IN  IF args = <<>> THEN None
              ELSE IF Len(args) = 1 THEN args[1]
              ELSE [k |-> "dismax", tie |-> q.tie, args |-> args]
     [] q.k = "bool" ->
-         LET sub == [i \in DOMAIN q.cl |-> ScoreTerm(q.cl[i].q, d, st, bs, fnid)]
+         LET sub == [i \in DOMAIN q.cl |-> ScoreTermF(q.cl[i].q, d, st, bs, fn)]
              inc == [i \in DOMAIN q.cl |-> IF q.cl[i].o = "mustnot" THEN None ELSE sub[i]]
              args == SelectSeq(inc, IsSome)    \* the matching scoring clauses, in clause order
              ok == /\ \A i \in DOMAIN q.cl : q.cl[i].o = "must" => IsSome(sub[i])
@@ -138,6 +148,18 @@ ScoreTerm(q, d, st, bs, fnid) ==
          IN  IF ~ok THEN None
              ELSE IF Len(args) = 1 THEN args[1]
              ELSE [k |-> "sum", args |-> args]
+
+\* per-field statistics of segments of multi-field documents
+FieldView(seg, f) == [i \in DOMAIN seg |-> seg[i][f]]
+StatsF(sgs, fields, words) ==
+  [N |-> SumSeq([s \in DOMAIN sgs |-> SegN(sgs[s])]),
+   T |-> [f \in fields |-> SumSeq([s \in DOMAIN sgs |-> SegT(FieldView(sgs[s], f))])],
+   n |-> [f \in fields |-> [w \in words |-> SumSeq([s \in DOMAIN sgs |-> SegDf(FieldView(sgs[s], f), w)])]]]
+
+\* the single-field instance (field "body"): d = [toks, pad], st = [N, T, n |-> [w |-> ..]], one field-norm id
+Matches(q, d) == MatchesF(q, [body |-> d])
+ScoreTerm(q, d, st, bs, fnid) ==
+  ScoreTermF(q, [body |-> d], [N |-> st.N, T |-> [body |-> st.T], n |-> [body |-> st.n]], bs, [body |-> fnid])
 
 RECURSIVE Leaves(_)
 Leaves(t) == IF t.k \in {"bm25", "const"} THEN 1 ELSE SumSeq([i \in DOMAIN t.args |-> Leaves(t.args[i])])
